@@ -151,6 +151,20 @@ func (c *corr) match(s, d Val, at string, todo *[]pair) {
 			de, _ := d.entry(k)
 			c.match(se, de, at+"/"+k, todo)
 		}
+		if s.T == "st" {
+			sp, dp := nul(), nul()
+			if s.P != nil {
+				sp = *s.P
+			}
+			if d.P != nil {
+				dp = *d.P
+			}
+			before := len(c.probs)
+			c.match(sp, dp, at+"/DecodeParms", todo)
+			for i := before; i < len(c.probs); i++ {
+				c.probs[i].class = "stream/decode-parms-reference/" + strings.TrimPrefix(c.probs[i].class, "shape/")
+			}
+		}
 	default:
 		c.fail("shape/unknown", "%s: %s", at, s)
 	}
